@@ -30,6 +30,15 @@ preemption-bounded subset (bound = nesting depth).  Reads of B inside a write tr
 If B nevertheless hits ``database is locked`` (a lingering read cursor of A), the schedule is reported as
 ``blocked`` and is never counted as a violation; the busy timeout is lowered so that this costs < 0.5 s.
 
+Alternation (round 3, additive): an injected operation B may *yield back to its parent*: ``B.yields = {j: Yield(until=m)}``.
+When B reaches its call j (legal: B holds no lock) it hands the baton back to A, which performs its calls k .. until it
+reaches its first legal call with index >= m (or finishes: ``until=None``); then B resumes and runs to completion (or to its
+next yield), and A continues.  With it the driver produces A1 B1 A2 B2 [A3] — A resumes *inside* B — which no nesting can
+express.  Still exactly one thread runs at any time (threading.Event baton), every hand-over happens at a lock-free point of
+the thread that gives the baton away, and a lock timeout marks the schedule ``blocked`` as before.  A parent that finishes
+(or dies) while a child still waits resumes the child (its remaining part runs after the parent).  Every recorded ``Call``
+carries ``g``, its position in the global order in which the DB calls of the whole schedule were actually performed.
+
 A detail worth knowing: the non-transactional `SqliteWorkflowStore.store_stage` raises ConcurrencyError after a
 0-row UPDATE without rolling back, so that worker keeps its implicit write transaction (and SQLite's RESERVED lock)
 until its next commit — all those points are `in_transaction` and therefore skipped, as they must be.
@@ -48,6 +57,8 @@ Typical use (see harness/props/c04.py, c11.py)
     # an index >= the number of calls means "right after the operation" (sequential baseline)
     # several injections into ONE worker: e.deliver_op("A", a, {k1: opG, k2: opB}) — A resumes between them (harness/props/c11.py, family
     # bump-retry); Op.rollbacks lists the call indices at which a write transaction of the worker was rolled back (parallel to Op.txns)
+    # alternation A1 B1 A2 B2: b = e.deliver_op("B", rb); b.yields = {j: Yield(until=m)}; e.deliver_op("A", ra, {k: b})
+    # (harness/props/c04.py, family alternation); Call.g = global order of all calls, Op.yielded = [(own idx, parent idx | None)]
 
 Pieces
 ------
@@ -116,6 +127,8 @@ class Call:
     sql: str = ""
     params: Any = None
     rowcount: int | None = None   # of INSERT/UPDATE/DELETE statements (filled after the call)
+    g: int = -1        # global sequence number over ALL workers of the schedule: the order in which the calls were really performed
+    #                    (assigned when on_call returns, i.e. after whatever was injected / resumed right before this call has run)
 
     @property
     def legal(self) -> bool:
@@ -124,6 +137,13 @@ class Call:
 
     def text(self) -> str:
         return f"{self.idx}:{self.tag}{'*' if self.intxn else ''}"
+
+
+@dataclass
+class Yield:
+    """Marker in `Op.yields`: at that (legal) call of an INJECTED operation the baton goes back to the parent, which continues until it
+    reaches its first legal call with index >= `until` (None: until the parent has finished); then the operation resumes."""
+    until: int | None = None
 
 
 @dataclass
@@ -142,17 +162,24 @@ class Op:
     txns: list[tuple[str, list[str]]] = field(default_factory=list)   # ("commit"|"rollback", [DML tags]) per write transaction
     rollbacks: list[int] = field(default_factory=list)   # len(calls) when a write transaction was rolled back: the rollback happened
     #                                                      after call rollbacks[i]-1 and before call rollbacks[i] (parallel to the "rollback" entries of txns)
+    yields: dict[int, Yield] = field(default_factory=dict)   # own call index -> hand the baton back to the parent right before that call
+    # filled by the run
+    yielded: list[tuple[int, int | None]] = field(default_factory=list)   # (own call index, parent's call index at which it was resumed | None = after the parent's end)
+    skipped_yield: list[int] = field(default_factory=list)   # yield points that turned out to be inside a transaction (or had no parent): not taken
 
     def reset(self) -> None:
         self.calls, self.result, self.error = [], None, None
         self.skipped_intxn, self.injected, self.txns = [], [], []
         self.rollbacks = []
+        self.yielded, self.skipped_yield = [], []
         for o in self.arm.values():
             o.reset()
 
 
 class Sched:
-    """Global scheduler: which thread is which worker; call log; arming."""
+    """Global scheduler: which thread is which worker; call log; arming; baton passing between a parent and its yielding child."""
+
+    WAIT_S = 120
 
     def __init__(self) -> None:
         self.tl = threading.local()
@@ -160,6 +187,7 @@ class Sched:
         self.lock = threading.Lock()
         self.active = False
         self.blocked = False
+        self.gseq = 0
 
     def current(self) -> Op | None:
         return getattr(self.tl, "op", None)
@@ -186,6 +214,11 @@ class Sched:
         elif kind == "commit" and cur is not None:
             op.txns.append(("commit", cur))
             self.tl.dml = None
+        # children that yielded back to this worker and wait for it to reach this call index
+        susp = getattr(op, "_susp", None)
+        if susp and c.legal:
+            for ch in [x for x in susp if x._until is not None and c.idx >= x._until]:
+                self._resume(op, ch, c.text(), c.idx)
         inj = op.arm.get(c.idx)
         if inj is not None:
             if not c.legal:
@@ -195,7 +228,28 @@ class Sched:
                 op.injected.append(c.idx)
                 self.trace.append(f"{op.name}@{c.text()} inject {inj.name}={inj.label}")
                 self.run_op(inj)
-                self.trace.append(f"{inj.name} end {inj.error or 'ok'}")
+                self._child_back(op, inj)
+        # this worker's own yield: hand the baton back to the parent right before this call
+        y = op.yields.get(c.idx) if op.yields else None
+        if y is not None:
+            parent = getattr(op, "_parent", None)
+            if parent is None or not c.legal or getattr(parent, "_fn_done", False):
+                op.skipped_yield.append(c.idx)
+                why = "no-parent" if parent is None else ("skipped-intxn" if not c.legal else "parent-finished")
+                self.trace.append(f"{op.name}@{c.text()} {why} yield")
+            else:
+                self.trace.append(f"{op.name}@{c.text()} yield to {parent.name} until {parent.name}@{'end' if y.until is None else y.until}")
+                op._until = y.until
+                op._at = c.idx
+                op._state = "yield"
+                op._resume_ev.clear()
+                op._wake_ev.set()                  # the parent (waiting in _await) takes the baton
+                if not op._resume_ev.wait(self.WAIT_S):
+                    raise RuntimeError(f"modeb: {op.name} was never resumed after its yield at call {c.idx}")
+                op._state = "run"
+        with self.lock:
+            c.g = self.gseq
+            self.gseq += 1
         return c
 
     def on_rollback(self, conn: sqlite3.Connection) -> None:
@@ -208,13 +262,58 @@ class Sched:
             op.rollbacks.append(len(op.calls))
             self.tl.dml = None
 
+    # ---- baton passing ----------------------------------------------------------------------
+    def _await(self, op: Op) -> None:
+        """Block the calling (parent) thread until `op` has finished or has yielded."""
+        if not op._wake_ev.wait(self.WAIT_S):
+            op.error = "timeout"
+            op._state = "end"
+            self.blocked = True
+            return
+        if op._state == "end":
+            op._thread.join(self.WAIT_S)
+
+    def _child_back(self, parent: Op, ch: Op) -> None:
+        """The child gave the baton back: it ended, or it yielded (then it is parked on the parent)."""
+        if ch._state == "yield":
+            parent._susp.append(ch)
+        else:
+            self.trace.append(f"{ch.name} end {ch.error or 'ok'}")
+
+    def _resume(self, parent: Op, ch: Op, where: str, pidx: int | None) -> None:
+        parent._susp.remove(ch)
+        ch.yielded.append((ch._at, pidx))
+        self.trace.append(f"{parent.name}@{where} resume {ch.name}")
+        ch._wake_ev.clear()
+        ch._resume_ev.set()
+        self._await(ch)
+        self._child_back(parent, ch)
+
+    def _flush(self, op: Op) -> None:
+        """`op` has finished (or died): children that still wait for it run their remaining part now."""
+        op._fn_done = True
+        while op._susp:
+            self._resume(op, op._susp[0], "end", None)
+
     def run_op(self, op: Op) -> None:
-        """Run `op` in its own thread (own thread-local connection), join."""
+        """Run `op` in its own thread (own thread-local connection) until it has finished or (injected operations only) yielded."""
+        op._parent = self.current()
+        op._susp = []
+        op._fn_done = False
+        op._state = "run"
+        op._until = None
+        op._at = -1
+        op._wake_ev = threading.Event()
+        op._resume_ev = threading.Event()
+
         def body() -> None:
             self.tl.op = op
             self.tl.dml = None
             try:
-                op.result = op.fn()
+                try:
+                    op.result = op.fn()
+                finally:
+                    self._flush(op)
                 # an operation armed at (or beyond) its number of calls: the injected one runs right after it (sequential baseline)
                 for k in sorted(op.arm):
                     if k >= len(op.calls) and k not in op.injected and k not in op.skipped_intxn:
@@ -222,7 +321,8 @@ class Sched:
                         op.injected.append(k)
                         self.trace.append(f"{op.name}@end inject {inj.name}={inj.label}")
                         self.run_op(inj)
-                        self.trace.append(f"{inj.name} end {inj.error or 'ok'}")
+                        self._child_back(op, inj)
+                        self._flush(op)
             except sqlite3.OperationalError as e:   # lock timeout: the injection point was not a free window
                 op.error = "blocked:" + str(e)[:60]
                 self.blocked = True
@@ -231,18 +331,19 @@ class Sched:
                 op.tb = traceback.format_exc()
             finally:
                 self.tl.op = None
+                op._state = "end"
+                op._wake_ev.set()
         t = threading.Thread(target=body, name=f"modeb-{op.name}", daemon=True)
+        op._thread = t
         t.start()
-        t.join(120)
-        if t.is_alive():
-            op.error = "timeout"
-            self.blocked = True
+        self._await(op)
 
     def run(self, op: Op) -> list[str]:
         """Run a (possibly armed) top-level operation; returns the canonical trace."""
         self.trace = []
         self.blocked = False
         self.active = True
+        self.gseq = 0
         try:
             self.trace.append(f"{op.name}={op.label}")
             self.run_op(op)
